@@ -298,16 +298,105 @@ def unordered_iterations():
     return sorted(set(found))
 
 
+def _normalised_hash(node):
+    """hash of a function's AST with docstrings, annotations and positions removed"""
+    import copy
+    import hashlib
+    n = copy.deepcopy(node)
+    for x in ast.walk(n):
+        if isinstance(x, (ast.FunctionDef, ast.AsyncFunctionDef)):
+            x.returns = None
+            x.decorator_list = [d for d in x.decorator_list]
+            for a in x.args.args + x.args.kwonlyargs + x.args.posonlyargs + \
+                    ([x.args.vararg] if x.args.vararg else []) + ([x.args.kwarg] if x.args.kwarg else []):
+                a.annotation = None
+            if x.body and isinstance(x.body[0], ast.Expr) and isinstance(getattr(x.body[0], 'value', None), ast.Constant) \
+                    and isinstance(x.body[0].value.value, str):
+                x.body = x.body[1:] or [ast.Pass()]
+        if isinstance(x, ast.AnnAssign):
+            x.annotation = ast.Constant(value=None)
+    # assertion messages and comments do not matter; type comments neither
+    return hashlib.sha1(ast.dump(n, annotate_fields=False, include_attributes=False).encode()).hexdigest()[:16]
+
+
+def source_functions():
+    """every function / method of usim/** : 'relative/file.py:Qual.name' -> normalised hash"""
+    out = []
+    base = os.path.join(REPO, 'usim')
+    for root, _, files in sorted(os.walk(base)):
+        for fn in sorted(files):
+            if not fn.endswith('.py'):
+                continue
+            path = os.path.join(root, fn)
+            rel = os.path.relpath(path, REPO)
+            tree = ast.parse(open(path).read(), path)
+
+            def rec(node, prefix):
+                for c in node.body if hasattr(node, 'body') else []:
+                    if isinstance(c, (ast.FunctionDef, ast.AsyncFunctionDef)):
+                        out.append(('%s:%s%s' % (rel, prefix, c.name), _normalised_hash(c)))
+                    elif isinstance(c, ast.ClassDef):
+                        rec(c, prefix + c.name + '.')
+                    elif isinstance(c, ast.If):
+                        rec(c, prefix)
+            rec(tree, '')
+            # module level statements other than imports/defs/docstrings (e.g. `time = Time()`, WaitQueue selection)
+            top = [c for c in tree.body if not isinstance(c, (ast.FunctionDef, ast.AsyncFunctionDef, ast.ClassDef,
+                                                             ast.Import, ast.ImportFrom))
+                   and not (isinstance(c, ast.Expr) and isinstance(getattr(c, 'value', None), ast.Constant))]
+            import hashlib
+            out.append(('%s:<module>' % rel, hashlib.sha1('|'.join(
+                ast.dump(c, annotate_fields=False, include_attributes=False) for c in top).encode()).hexdigest()[:16]))
+            # class level attribute tables (SUPPRESS_CONCURRENT, _operator_inverse, ...)
+            for c in ast.walk(tree):
+                if isinstance(c, ast.ClassDef):
+                    attrs = [x for x in c.body if isinstance(x, (ast.Assign, ast.AnnAssign))]
+                    if attrs:
+                        out.append(('%s:%s.<attrs>' % (rel, c.name), hashlib.sha1('|'.join(
+                            ast.dump(x.value if x.value is not None else x.target, annotate_fields=False,
+                                     include_attributes=False) for x in attrs).encode()).hexdigest()[:16]))
+    seen = {}
+    res = []
+    for k, v in out:
+        if k in seen:      # same qualified name twice (e.g. under `if __debug__`): combine
+            k = '%s#%d' % (k, seen[k])
+        seen[k.split('#')[0]] = seen.get(k.split('#')[0], 0) + 1
+        res.append((k, v))
+    return res
+
+
+def _try(fn, poison):
+    """a table whose source shape is not recognised becomes a poison value of the right type: only the obligations
+    about THAT table stop checking (fail closed, but without breaking unrelated properties)"""
+    try:
+        return fn(), None
+    except Exception as e:      # noqa
+        return poison, '%s: %s' % (type(e).__name__, e)
+
+
 def generate():
-    sup, pro, envpro = scope_tables()
-    inv = cmp_inverse()
-    invc = invert_classes()
-    tc = time_cmp()
-    lo = level_ops()
-    ts = taskstate()
-    its = unordered_iterations()
+    errs = []
+    (sup, pro, envpro), e = _try(scope_tables, (['<unrecognised>'], ['<unrecognised>'], ['<unrecognised>']))
+    errs.append(e)
+    inv, e = _try(cmp_inverse, [])
+    errs.append(e)
+    invc, e = _try(invert_classes, [('<unrecognised>', '')])
+    errs.append(e)
+    tc, e = _try(time_cmp, [('<unrecognised>', '')])
+    errs.append(e)
+    lo, e = _try(level_ops, [('<unrecognised>', '', '')])
+    errs.append(e)
+    ts, e = _try(taskstate, [('<unrecognised>', '')])
+    errs.append(e)
+    its, e = _try(unordered_iterations, ['<unrecognised>'])
+    errs.append(e)
+    src, e = _try(source_functions, [('<unparsable source>', '')])
+    errs.append(e)
     L = []
     L.append('(* GENERATED on every run from %s by harness/translate_tables.py -- do not edit *)' % REPO)
+    for e in errs:
+        if e:
+            L.append('(* table not recognised: %s *)' % e.replace('*)', '* )').replace('(*', '( *'))
     L.append('From Coq Require Import List String ZArith.')
     L.append('From Usim Require Import Tables.')
     L.append('Import ListNotations. Open Scope string_scope.')
@@ -320,6 +409,8 @@ def generate():
     L.append('Definition gen_level_ops : list (string * (string * string)) := [%s].' % '; '.join('("%s", ("%s", "%s"))' % p for p in lo))
     L.append('Definition gen_taskstate : list (string * string) := [%s].' % '; '.join('("%s", "%s")' % p for p in ts))
     L.append('Definition gen_unordered_iterations : list string := %s.' % _coq_strs(its))
+    L.append('(* normalised hash of every function of usim/** (docstrings, annotations, positions removed) *)')
+    L.append('Definition gen_src : list (string * string) := [%s].' % ';\n  '.join('("%s", "%s")' % kv for kv in src))
     return '\n'.join(L) + '\n'
 
 
